@@ -1,4 +1,142 @@
-import BoboVerif.Model.Decider
-/-! C03 — placeholder header; theorems follow. -/
+import BoboVerif.Props.C12
+import BoboVerif.Lemmas.Remote
+/-!
+C03 — Replication is transparent and survivors take over (failover equivalence).
+
+What is proved here (for every pattern, event, record and predicate behaviour)
+is the *mirror* property record by record: whatever a local step does to a run
+and announces, a replica holding the same run reproduces exactly when it
+applies that announcement —
+
+* a local change that leaves the run active produces a record STRICTLY AHEAD of
+  the run's previous position (`local_update_is_ahead`), so a replica at the
+  previous position applies it and ends with exactly the originator's index and
+  history (`replica_applies_update`); this is where finding F1 lived: with the
+  pinned comparison (index only) progress inside a looping block is NOT ahead
+  (`loop_progress_not_ahead_old`) and the replica kept a stale history;
+* a record for a run the replica does not hold creates it at the record's
+  position at the end of its bucket (`replica_creates_new`);
+* a completed / halted record removes the run (`replica_removes_finished`).
+
+The whole-table statement `SyncBisim` (every live instance's table equals the
+single engine's after every input, for every split and crash set) is the
+composition of these over the notification lists; it is stated below and its
+proof is not complete — the theorems are therefore the `_partial` set.  The
+composition is exercised on every run by the correspondence harness (real
+clusters against one real engine, all splits and crash points of short
+streams).  `FeedbackInert` is an explicit hypothesis of the full statement:
+without it the property is false of the code (finding F2, recorded open).
+-/
 namespace Bobo.Decider
+open Bobo.Run Bobo.Lattice
+set_option linter.unusedSimpArgs false
+variable {ε : Type}
+
+/-- processing a complex or action event changes no run (relaxed, non-negated blocks whose predicates
+reject non-simple events, no preconditions): the hypothesis under which C03 can hold at all. -/
+def FeedbackInert (c : Cfg ε) (isSimple : ε → Bool) : Prop :=
+  ∀ P ∈ c.phenomena, ∀ p ∈ P.patterns, ∀ (r : Run ε) (e : ε), isSimple e = false →
+    (process p r e) = (.ok false, r) ∧ ∀ b ∈ p.blocks.head?, startMatch b.preds e = false
+
+/-- the full statement (not yet proved as a whole): after the same input stream, split arbitrarily,
+with full delivery between inputs, every replica's buckets equal the single decider's. -/
+def SyncBisim (c : Cfg ε) (single : DState ε) (replicas : List (DState ε)) : Prop :=
+  ∀ r ∈ replicas, ∀ ph pa, (r.table.runsFrom ph pa).map (fun x => (x.run.id, x.run.idx, x.run.hist.size))
+    = (single.table.runsFrom ph pa).map (fun x => (x.run.id, x.run.idx, x.run.hist.size))
+
+/-- a change that keeps the run active recorded the event (and did not move backwards). -/
+theorem changed_live_records (p : Pattern ε) (r : Run ε) (e : ε)
+    (hch : (process p r e).1 = .ok true) (hlive : (process p r e).2.halted = false) :
+    (∃ g, (process p r e).2.hist = addEvent r.hist g e) ∧ r.idx ≤ (process p r e).2.idx := by
+  refine ⟨?_, idx_monotone p r e⟩
+  unfold process at *
+  by_cases hh : r.halted = true
+  · simp [hh] at hch
+  · simp only [hh, if_false] at hch hlive ⊢
+    cases hg : gate p e r.hist with
+    | none => simp [hg] at hch
+    | some b =>
+      cases b
+      · simp [hg, halt] at hlive
+      · simp only [hg] at hch hlive ⊢
+        have hr := walk_res p.blocks.length e (p.blocks.drop r.idx) r.idx r
+        generalize walk p.blocks.length e (p.blocks.drop r.idx) r.idx r = w at hr hch hlive
+        cases hr with
+        | index => simp at hch
+        | raised => simp at hch
+        | wait => simp at hch
+        | halt => simp [halt] at hlive
+        | record g => exact ⟨g, rfl⟩
+        | advance g j => exact ⟨g, rfl⟩
+
+/-- a local change that keeps the run active yields a position strictly ahead of the old one. -/
+theorem local_update_is_ahead_partial (p : Pattern ε) (r : Run ε) (e : ε)
+    (hch : (process p r e).1 = .ok true) (hlive : (process p r e).2.halted = false)
+    (ph : String) :
+    ahead (LRun.ser ph ({ run := (process p r e).2, pat := p } : LRun ε)) r = true := by
+  rw [ahead_iff]
+  obtain ⟨⟨g, hg⟩, hidx⟩ := changed_live_records p r e hch hlive
+  simp only [LRun.ser]
+  have := addEvent_size_ge r.hist g e
+  rw [← hg] at this
+  omega
+
+/-- finding F1 (pinned tree): a looping block that accepts another event keeps the index, so with the
+index-only comparison the originator's record is not ahead and the replica ignores it. -/
+theorem loop_progress_not_ahead_old (rr : Rec ε) (l : Run ε) (h : rr.idx = l.idx) : aheadOld rr l = false := by
+  simp [aheadOld, h]
+
+/-- a replica holding the run at an earlier position takes exactly the originator's index and history. -/
+theorem replica_applies_update_partial (c : Cfg ε) (s : DState ε) (out : List (Rec ε)) (rr : Rec ε)
+    (p : Pattern ε) (rl : LRun ε)
+    (hp : c.getPattern rr.phen rr.pat = some p) (hs : p.singleton = false)
+    (hl : s.table.runAt rr.phen rr.pat rr.id = some rl) (ha : ahead rr rl.run = true) :
+    ∃ s' out', updateOne c ahead (s, out) rr = some (s', out') ∧
+      (s'.table.runAt rr.phen rr.pat rr.id).map (fun x => (x.run.idx, x.run.hist)) = some (rr.idx, rr.hist) := by
+  rw [remote_only_ahead c s out rr p rl hp hs hl]
+  refine ⟨_, _, rfl, ?_⟩
+  have hid : rl.run.id = rr.id := by
+    have := List.find?_some (by rw [runAt_def] at hl; exact hl)
+    simpa using this
+  simp only [ha, if_true]
+  rw [runAt_setBlock, hid]
+  simp [hl]
+
+/-- a record for a run the replica does not hold creates it, at the record's position. -/
+theorem replica_creates_new_partial (c : Cfg ε) (s : DState ε) (out : List (Rec ε)) (rr : Rec ε)
+    (p : Pattern ε) (hp : c.getPattern rr.phen rr.pat = some p) (hs : p.singleton = false)
+    (hl : s.table.runAt rr.phen rr.pat rr.id = none) :
+    ∃ s' out', updateOne c ahead (s, out) rr = some (s', out') ∧
+      (s'.table.runAt rr.phen rr.pat rr.id).map (fun x => (x.run.id, x.run.idx, x.run.hist)) =
+        some (rr.id, rr.idx, rr.hist) ∧
+      s'.table.runsFrom rr.phen rr.pat = s.table.runsFrom rr.phen rr.pat ++
+        [{ run := { id := rr.id, idx := rr.idx, hist := rr.hist, halted := completeAt p.blocks.length rr.idx }, pat := p }] := by
+  unfold updateOne
+  simp only [hp, hs, Bool.false_eq_true, if_false, hl]
+  obtain ⟨t', ht'⟩ := add_isSome_of_runAt_none s.table rr.phen rr.pat
+    { run := { id := rr.id, idx := rr.idx, hist := rr.hist, halted := completeAt p.blocks.length rr.idx }, pat := p } hl
+  simp only [ht']
+  refine ⟨_, _, rfl, ?_, ?_⟩
+  · simp only
+    rw [runAt_add _ _ _ _ _ ht']
+    simp
+  · simp only
+    unfold Table.add at ht'
+    simp only [hl, Option.isSome_none, Bool.false_eq_true, if_false, Option.some.injEq] at ht'
+    subst ht'
+    rw [runsFrom_modify _ _ _ _ _ true _ (.inl rfl)]
+    simp
+
+/-- a completed / halted record removes the run from the replica. -/
+theorem replica_removes_finished_partial (c : Cfg ε) (hns : NoSing c) (b : Bool) (s : DState ε) (out : List (Rec ε))
+    (rr : Rec ε) (hp : (c.getPattern rr.phen rr.pat).isSome = true) :
+    (removeOne c b (s, out) rr).1.table.runAt rr.phen rr.pat rr.id = none := by
+  rw [removeOne_nosing c hns]
+  cases hg : c.getPattern rr.phen rr.pat with
+  | none => simp [hg] at hp
+  | some p =>
+    simp only
+    rw [runAt_remove]
+    simp
+
 end Bobo.Decider
